@@ -12,7 +12,23 @@ TKET = {"H": "H", "S": "S", "T": "T", "X": "X", "Y": "Y", "Z": "Z", "CX": "CX", 
         "SWAP": "SWAP", "Rx": "Rx", "Ry": "Ry", "Rz": "Rz", "CU1": "CU1", "CRz": "CRz", "CRx": "CRx"}
 
 
+import functools
+
+
+@functools.lru_cache(maxsize=None)
+def _tket_unitary(name, phase):
+    from pytket.circuit import Op, OpType
+    op = getattr(OpType, TKET[name])
+    if phase is None:
+        return np.array(Op.create(op).get_unitary(), dtype=complex)
+    return np.array(Op.create(op, 2 * phase).get_unitary(), dtype=complex)
+
+
 def tket_unitary(name, phase=None):
+    return _tket_unitary(name, None if phase is None else float(phase)).copy()
+
+
+def tket_unitary_uncached(name, phase=None):
     """Standard matrix (column-vector convention, qubit 0 most significant) of the tket op
     `name`; rotations take discopy's phase in full turns (tket's half-turn parameter = 2*phase)."""
     from pytket.circuit import Op, OpType
@@ -104,3 +120,155 @@ def embed_two_qubit(u, a, b, n):
                 row = 2 * row + x
             full[row, col] += amp
     return full
+
+
+# ------------------------------------------------------------------ classical-quantum reference
+
+def double(F, n_in, n_out):
+    """Doubled [in, out] matrix of a pure map with [in, out] matrix F on qubits: every wire gets
+    dimension 4 with index ket*2 + bra;  D[(a,b),(c,d)] = F[a,c] * conj(F[b,d])."""
+    F = np.asarray(F, dtype=complex).reshape((2,) * (n_in + n_out))
+    T = np.multiply.outer(F, F.conj())      # axes a1..an c1..cm b1..bn d1..dm
+    n, m = n_in, n_out
+    order = []
+    for i in range(n):
+        order += [i, n + m + i]                 # a_i, b_i
+    for j in range(m):
+        order += [n + j, n + m + n + j]         # c_j, d_j
+    T = T.transpose(order)
+    return T.reshape(4 ** n, 4 ** m)
+
+
+def classical(G, n_in, n_out):
+    """Doubled matrix of a classical map with [in, out] array G on bits (diagonal components
+    only: index 0 = |0><0|, 3 = |1><1|)."""
+    G = np.asarray(G, dtype=complex).reshape((2,) * (n_in + n_out))
+    D = np.zeros((4,) * (n_in + n_out), dtype=complex)
+    import itertools
+    for idx in itertools.product((0, 1), repeat=n_in + n_out):
+        D[tuple(3 * i for i in idx)] = G[idx]
+    return D.reshape(4 ** n_in, 4 ** n_out)
+
+
+def measure_matrix(n, destructive=True, override_bits=False):
+    """qubit^n (+ bit^n if override) -> (qubit^n if not destructive) + bit^n."""
+    import itertools
+    n_in = n * (2 if override_bits else 1)
+    n_out = n * (1 if destructive else 2)
+    D = np.zeros((4,) * (n_in + n_out), dtype=complex)
+    for bits in itertools.product((0, 1), repeat=n):
+        diag = tuple(3 * b for b in bits)
+        ins = [diag]
+        if override_bits:   # any classical value of the overridden bits
+            ins = [diag + tuple(3 * o for o in old) for old in itertools.product((0, 1), repeat=n)]
+        out = diag if destructive else diag + diag
+        for i in ins:
+            D[i + out] = 1
+    return D.reshape(4 ** n_in, 4 ** n_out)
+
+
+def discard_matrix(kinds):
+    """Discard of the given wires ('bit'/'qubit'): trace / marginal."""
+    D = np.zeros((4,) * len(kinds), dtype=complex)
+    import itertools
+    for bits in itertools.product((0, 1), repeat=len(kinds)):
+        D[tuple(3 * b for b in bits)] = 1
+    return D.reshape(4 ** len(kinds), 1)
+
+
+def cq_box_matrix(box):
+    """Doubled reference matrix of a circuit box, from its class and parameters."""
+    from discopy.quantum import gates, circuit
+    n_in, n_out = len(box.dom), len(box.cod)
+    if isinstance(box, circuit.Swap):
+        return ref.swap_matrix(4, 4)
+    if isinstance(box, circuit.Discard):
+        return discard_matrix([o.name for o in box.dom.objects])
+    if isinstance(box, circuit.MixedState):
+        return discard_matrix([o.name for o in box.cod.objects]).T
+    if isinstance(box, circuit.Measure):
+        return measure_matrix(box.n_qubits, box.destructive, box.override_bits)
+    if isinstance(box, circuit.Encode):
+        return measure_matrix(box.n_bits, box.constructive, box.reset_bits).T
+    if isinstance(box, gates.Scalar):
+        s = complex(box.data) ** .5 if isinstance(box, gates.Sqrt) else complex(box.data)
+        return np.array([[s if box.is_mixed else abs(s) ** 2]], dtype=complex)
+    if isinstance(box, gates.Copy):
+        G = np.zeros((2, 2, 2))
+        G[0, 0, 0] = G[1, 1, 1] = 1
+        return classical(G, 1, 2)
+    if isinstance(box, gates.Match):
+        G = np.zeros((2, 2, 2))
+        G[0, 0, 0] = G[1, 1, 1] = 1
+        return classical(G, 2, 1)
+    if isinstance(box, gates.Digits):
+        v = np.zeros((2,) * len(box.digits))
+        v[tuple(box.digits)] = 1
+        return classical(v, len(box.digits), 0) if box.is_dagger else classical(v, 0, len(box.digits))
+    if isinstance(box, gates.ClassicalGate):
+        G = np.asarray(box.array, dtype=complex)
+        if box.is_dagger:
+            raise KeyError("daggered generic classical gate")
+        return classical(G, n_in, n_out)
+    u = gate_matrix(box)
+    if u is None:
+        raise KeyError("no CQ reference for %r" % (box,))
+    return double(u.T, n_in, n_out)
+
+
+def cq_ref(d):
+    """Reference doubled matrix of a circuit: wires of dimension 4 (ket*2+bra), product over
+    layers of I (x) D(box) (x) I."""
+    return ref.ref_eval(d, lambda a: 4, lambda b, dd, dc: cq_box_matrix(b))
+
+
+def to_cqmap_layout(E, dom_kinds, cod_kinds):
+    """Reorder the reference doubled matrix into discopy's CQMap array layout: classical wires
+    (once), then the conj copies of the quantum wires, then their ket copies -- for dom, then cod.
+    Also returns the largest magnitude found on off-diagonal components of classical wires
+    (must be 0: bits never carry coherences)."""
+    kinds = list(dom_kinds) + list(cod_kinds)
+    T = E.reshape((2, 2) * len(kinds))          # per wire: ket axis, bra axis
+    leak = 0.0
+    # take the diagonal on classical wires
+    axes_c, axes_b, axes_k = [[], []], [[], []], [[], []]
+    for side, ks, base in ((0, dom_kinds, 0), (1, cod_kinds, len(dom_kinds))):
+        for i, kd in enumerate(ks):
+            w = base + i
+            if kd == "bit":
+                axes_c[side].append(w)
+            else:
+                axes_b[side].append(w)
+                axes_k[side].append(w)
+    # build the output by explicit indexing (sizes are tiny)
+    import itertools
+    shape = []
+    for side in (0, 1):
+        shape += [2] * (len(axes_c[side]) + 2 * len(axes_b[side]))
+    A = np.zeros(shape or (1,), dtype=complex)
+    n = len(kinds)
+    for idx in itertools.product((0, 1), repeat=2 * n):
+        kets, bras = idx[0::2], idx[1::2]
+        v = T[idx]
+        cls = [w for w in range(n) if kinds[w] == "bit"]
+        if any(kets[w] != bras[w] for w in cls):
+            leak = max(leak, abs(v))
+            continue
+        out = []
+        for side in (0, 1):
+            out += [kets[w] for w in axes_c[side]]
+            out += [bras[w] for w in axes_b[side]]
+            out += [kets[w] for w in axes_k[side]]
+        A[tuple(out) or (0,)] = v
+    return A, leak
+
+
+def distribution(E, cod_kinds):
+    """For a process with empty domain and all-bit codomain: {bitstring: probability}."""
+    import itertools
+    n = len(cod_kinds)
+    T = E.reshape((4,) * n) if n else E.reshape(())
+    out = {}
+    for bits in itertools.product((0, 1), repeat=n):
+        out[bits] = T[tuple(3 * b for b in bits)] if n else T[()]
+    return out
